@@ -150,11 +150,15 @@ def tlc_violation(res):
 
 def coverage_zero_actions(out):
     """Actions with zero count in a -coverage 1 report: lines '<Name line ...>: 0:0'."""
-    zero = []
-    for m in re.finditer(r"^<(\w+) line [^>]*>: (\d+):(\d+)", out, re.M):
-        if int(m.group(3)) == 0 and int(m.group(2)) == 0:
-            zero.append(m.group(1))
-    return zero
+    # a long run prints a report every minute: only the last one counts (an action that happens late in the
+    # breadth-first order is still at zero in the interim reports); within one report an action may be listed
+    # several times (one line per disjunct) - it is "never taken" only if all its lines are zero
+    reports = re.split(r"The coverage statistics at", out)
+    last = reports[-1]
+    total = {}
+    for m in re.finditer(r"^<(\w+) line [^>]*>: (\d+):(\d+)", last, re.M):
+        total[m.group(1)] = total.get(m.group(1), 0) + int(m.group(2)) + int(m.group(3))
+    return [name for name, n in total.items() if n == 0]
 
 
 def replay_lines(out, tag="REPLAY"):
